@@ -67,6 +67,9 @@ type rule struct {
 	forceFL  bool
 	noFL     bool // record no first()/last() at all (pairs: keeps the action texts of both rules identical)
 	flHelper bool // some action records first()/last() that can land on such a helper symbol
+	// byName: list the named references of an action in alphabetical order instead of position
+	// order, so that two rules binding the same names to different positions get identical texts
+	byName bool
 }
 
 // ---- references
@@ -339,7 +342,7 @@ func (r *rule) analyse() {
 		}
 		sort.Slice(names, func(i, j int) bool {
 			pi, pj := snap[a][names[i]], snap[a][names[j]]
-			if pi[0] != pj[0] {
+			if pi[0] != pj[0] && !r.byName {
 				return pi[0] < pj[0]
 			}
 			return names[i] < names[j]
